@@ -54,6 +54,7 @@ func cmdRun(args []string) int {
 	solver := fs.String("solver", "z3", "z3|z3-new|cvc5")
 	timeout := fs.Int("timeout", 20000, "per-query timeout ms")
 	panics := fs.Bool("panics", true, "report panics as violations")
+	stubs := fs.String("stubs", "", "callee=kind;callee=kind")
 	apis := fs.String("apis", "", "extra api templates (comma separated, e.g. ldb)")
 	deadline := fs.Int("deadline", 0, "stop after this many seconds")
 	single := fs.String("path", "", "run only the path with this decision vector (comma separated), with tracing")
@@ -79,6 +80,13 @@ func cmdRun(args []string) int {
 		return 2
 	}
 	opts := RunOpts{Unwind: *unwind, Witness: *witness, Params: map[string]int{}, PanicViolation: *panics}
+	if *stubs != "" {
+		opts.Stubs = map[string]string{}
+		for _, kv := range strings.Split(*stubs, ";") {
+			p := strings.SplitN(kv, "=", 2)
+			opts.Stubs[p[0]] = p[1]
+		}
+	}
 	if *permute > 0 {
 		opts.PermuteMaps = true
 		opts.PermuteMax = *permute
